@@ -7,7 +7,7 @@ use crate::problems::kappa;
 use crate::regress;
 use crate::report::{is_thorough, CaseOut, Report, Violation};
 use crate::run::{mname, run, Cfg, Outcome, M6};
-use crate::twopass::{plain_run, scene_cfg, scenes, Plain};
+use crate::twopass::{plain_run, scene_cfg, scenes, Plain, Scene};
 use crate::util::par_map;
 use ivp::prelude::*;
 use serde_json::{json, Value};
@@ -24,15 +24,16 @@ const STOPS: [Stop; 5] = [Stop::None, Stop::NonTerminal, Stop::TerminalStep2, St
 
 /// placement alphabet relative to the grid, clipped to the span, sorted in the direction of
 /// integration and de-duplicated bitwise
-fn alphabet(pl: &Plain, thorough: bool) -> Vec<(f64, String)> {
+fn alphabet(pl: &Plain, thorough: bool, xend_cfg: f64) -> Vec<(f64, String)> {
     let n = pl.nsteps();
     let dir = (pl.xs[n] - pl.xs[0]).signum();
-    let (lo, hi) = (pl.xs[0].min(pl.xs[n]), pl.xs[0].max(pl.xs[n]));
+    let (lo, hi) = (pl.xs[0].min(pl.xs[n]).min(xend_cfg), pl.xs[0].max(pl.xs[n]).max(xend_cfg));
     let mut steps: Vec<usize> = (0..n.min(if thorough { 4 } else { 3 })).collect();
     if !steps.contains(&(n - 1)) {
         steps.push(n - 1);
     }
-    let mut v: Vec<(f64, String)> = vec![(pl.xs[0], "x0".into()), (pl.xs[n], "xend".into())];
+    // (the configured xend itself, not only the last sample of the plain run: they must be the same point)
+    let mut v: Vec<(f64, String)> = vec![(pl.xs[0], "x0".into()), (pl.xs[n], "xend".into()), (xend_cfg, "xend(configured)".into())];
     for &k in &steps {
         let h = pl.h(k);
         for (off, name) in [(0.0, "x_k"), (1e-13, "x_k+1e-13"), (-1e-13, "x_k-1e-13"), (0.9e-12, "x_k+0.9e-12"), (-0.9e-12, "x_k-0.9e-12"), (1.1e-12, "x_k+1.1e-12"), (-1.1e-12, "x_k-1.1e-12"), (1e-9, "x_k+1e-9"), (-1e-9, "x_k-1e-9")] {
@@ -267,13 +268,31 @@ pub fn run_check(replay: Option<Value>) -> i32 {
     let mut contexts: Vec<(String, Ctx)> = vec![];
     for (mi, m) in M6.iter().enumerate() {
         for backward in [false, true] {
-            for (si, sc) in scenes(backward).into_iter().enumerate() {
+            for (si, sc, pinned) in scenes(backward).into_iter().enumerate().flat_map(|(si, sc)| {
+                // every scene; the first one once more with first_step = max_step = span/10.005: the steps run
+                // at max_step and the piece left for the last one is half a per cent of it
+                let again = if si == 0 { Some((4usize, Scene { prob: sc.prob.clone(), x0: sc.x0, xend: sc.xend, name: format!("{} (steps pinned at max_step)", sc.name) }, true)) } else { None };
+                std::iter::once((si, sc, false)).chain(again)
+            }) {
                 let mut cfg = scene_cfg(*m, &sc, 1e-5);
                 if *m == Method::RK4 {
                     // a fixed step that does not divide the interval: the last step is shortened
                     cfg.first_step = Some((sc.xend - sc.x0) / 73.3);
                 }
-                let plain = match plain_run(&sc.prob, &cfg) {
+                if pinned {
+                    cfg.first_step = Some((sc.xend - sc.x0) / 10.005);
+                    cfg.max_step = Some((sc.xend - sc.x0).abs() / 10.005);
+                }
+                // the accepted grid as the low-level solver's callbacks see it (solve_ivp withholds the
+                // samples before x0 + first_step, so its own t is not the grid when first_step is set)
+                let with_grid = |p: Plain| -> Option<Plain> {
+                    let low = crate::run::run_lowlevel(&sc.prob, &cfg, &[], &[], None, false);
+                    if low.ok().is_none() || low.recs.len() < 2 {
+                        return None;
+                    }
+                    Some(Plain { xs: low.recs.iter().map(|q| q.x).collect(), ys: low.recs.iter().map(|q| q.y.clone()).collect(), run: p.run })
+                };
+                let plain = match plain_run(&sc.prob, &cfg).and_then(&with_grid) {
                     Some(p) => p,
                     None => {
                         rep.machinery_errors.push(format!("plain run failed for {} {}", mname(*m), sc.name));
@@ -288,8 +307,8 @@ pub fn run_check(replay: Option<Value>) -> i32 {
                         Stop::TerminalLastStep => Some(plain.xs[n - 1] + 0.6 * plain.h(n - 1)),
                         _ => None,
                     };
-                    let pl2 = plain_run(&sc.prob, &cfg).unwrap();
-                    let alpha = alphabet(&pl2, thorough);
+                    let pl2 = plain_run(&sc.prob, &cfg).and_then(&with_grid).unwrap();
+                    let alpha = alphabet(&pl2, thorough, sc.xend);
                     contexts.push((
                         format!("c05:{}.{}.{}.{}", mi, backward as u8, si, sti),
                         Ctx { method: *m, backward, scene: si, stop: *st, cfg: cfg.clone(), plain: pl2, alpha, prob: sc.prob.clone(), kappa: kap, ev_time },
